@@ -98,6 +98,63 @@ Theorem C09_once_at_most_one : forall ds uf g e st x y,
 Proof. exact once_at_most_one. Qed.
 Print Assumptions C09_once_at_most_one.
 
+(* ---- the code itself.  gen/MiniGen.v is translated from mini/disj.go, mini/conj.go, mini/conde.go on every run: each
+   combinator as a function from argument lists to the goal VALUE it returns (the function literals it returns are the
+   bodies of micro.Disj / micro.Conj and are read as GDisj / GConj; anything else fails the translation).  For every
+   argument list the returned goal IS the right-nested binary form of the (delay-wrapped) arguments, nothing panics
+   (no gs[0] / gs[1:] / conj[i] out of range), and the clauses above hold of these goals. *)
+Require GMK.GoLite GMK.GoLiteM GMK.gen.MiniGen GMK.MiniGenSpec.
+
+Theorem C09_code_is_nested : forall f gs, (length gs < f)%nat ->
+  MiniGen.gn_DisjPlusNoZzz f gs = GoLite.Ret (nest_disj gs) /\ MiniGen.gn_ConjPlusNoZzz f gs = GoLite.Ret (nest_conj gs) /\
+  MiniGen.gn_DisjPlus f gs = GoLite.Ret (nest_disj (map GZzz gs)) /\ MiniGen.gn_ConjPlus f gs = GoLite.Ret (nest_conj (map GZzz gs)).
+Proof. exact (fun f gs H => conj (MiniGenSpec.gn_DisjPlusNoZzz_spec f gs H) (conj (MiniGenSpec.gn_ConjPlusNoZzz_spec f gs H)
+               (conj (MiniGenSpec.gn_DisjPlus_spec f gs H) (MiniGenSpec.gn_ConjPlus_spec f gs H)))). Qed.
+Print Assumptions C09_code_is_nested.
+
+Theorem C09_code_conde : forall f gss, (length gss < f)%nat -> (forall gs, In gs gss -> (length gs < f)%nat) ->
+  MiniGen.gn_Conde f gss = GoLite.Ret (MiniGenSpec.conde_code gss).
+Proof. exact MiniGenSpec.gn_Conde_spec. Qed.
+Print Assumptions C09_code_conde.
+
+Theorem C09_code_never_panics : forall f gs gss,
+  MiniGen.gn_DisjPlus f gs <> GoLite.Panic /\ MiniGen.gn_DisjPlusNoZzz f gs <> GoLite.Panic /\
+  MiniGen.gn_ConjPlus f gs <> GoLite.Panic /\ MiniGen.gn_ConjPlusNoZzz f gs <> GoLite.Panic /\
+  ((length gss < f)%nat -> (forall gs, In gs gss -> (length gs < f)%nat) -> MiniGen.gn_Conde f gss <> GoLite.Panic).
+Proof. exact MiniGenSpec.mini_code_never_panics. Qed.
+Print Assumptions C09_code_never_panics.
+
+(* the delay-wrapped forms the code builds have the answers of the plain right-nested forms; the disjunction even has the
+   very stream of the model's disj+ *)
+Theorem C09_code_disj_zzz_stream : forall ds uf gs e st,
+  eval ds uf (nest_disj (map GZzz gs)) e st = eval ds uf (GDisjPlus true gs) e st.
+Proof. exact MiniGenSpec.eval_code_disj_z. Qed.
+Print Assumptions C09_code_disj_zzz_stream.
+
+Theorem C09_code_disj_zzz_answers : forall ds uf gs e st x,
+  (forall g, In g gs -> ~ ReachErr ds uf (eval ds uf g e st)) ->
+  (InStream ds uf x (eval ds uf (nest_disj (map GZzz gs)) e st) <-> InStream ds uf x (eval ds uf (nest_disj gs) e st)).
+Proof. exact MiniGenSpec.code_disj_z_answers. Qed.
+Print Assumptions C09_code_disj_zzz_answers.
+
+Theorem C09_code_conj_zzz_answers : forall ds uf gs e st x,
+  ~ ReachErr ds uf (eval ds uf (nest_conj gs) e st) ->
+  (InStream ds uf x (eval ds uf (nest_conj (map GZzz gs)) e st) <-> InStream ds uf x (eval ds uf (nest_conj gs) e st)).
+Proof. exact MiniGenSpec.code_conj_z_answers. Qed.
+Print Assumptions C09_code_conj_zzz_answers.
+
+Theorem C09_code_conde_answers : forall ds uf gss e st x,
+  (forall gs, In gs gss -> ~ ReachErr ds uf (eval ds uf (nest_conj gs) e st)) ->
+  (InStream ds uf x (eval ds uf (MiniGenSpec.conde_code gss) e st) <->
+   InStream ds uf x (eval ds uf (nest_disj (map nest_conj gss)) e st)).
+Proof. exact MiniGenSpec.code_conde_answers. Qed.
+Print Assumptions C09_code_conde_answers.
+
+Example C09_code_nonvacuous :
+  MiniGen.gn_Conde 5 [[GSucc; GFail]; []; [GSucc]]
+  = GoLite.Ret (GDisj (GZzz (GConj (GZzz GSucc) (GZzz GFail))) (GDisj (GZzz GSucc) (GZzz (GZzz GSucc)))).
+Proof. vm_compute. reflexivity. Qed.
+
 (* non-vacuity *)
 Example C09_nonvacuous :
   option_map (@length state) (run_answers (GIfte (GDisj (GCall 1 []) (GEq (PB 0) (PAtom sym_a))) (GCall 2 []) GFail) 1 100 3) = Some 3%nat /\
